@@ -7,6 +7,7 @@
 From Hub Require Import Base.Prelude Base.Arith Model.Types Model.Keeper Model.Handlers Model.Hooks Model.Step.
 From Hub Require Import Proofs.Tactics Proofs.Frames Proofs.Money Proofs.KeysInv Proofs.Quota Proofs.InvDefs Proofs.Link
   Proofs.Ledger3 Proofs.RangeDefs Proofs.Range Proofs.Total Proofs.TotalClosed Proofs.Witness.
+From Hub Require Import Gen.Wiring Proofs.WiringThm.
 
 (* From every genesis of the configuration domain (valid parameter sets with session delay <=
    subscription delay, validated inflation schedule, module accounts set up as the app does), every
@@ -120,6 +121,19 @@ Proof.
     repeat (apply elem_of_cons in Hin as [->|Hin]; [vm_compute; reflexivity|]). inversion Hin.
 Qed.
 
+Section wiring.
+Local Open Scope string_scope.
+(* app wiring (regenerated from app/module.go and x/vpn/abci.go on every run): the hooks the theorems above are about
+   are composed in the order the application runs them *)
+Theorem C03_end_block_order_is_the_apps : vpn_end_block_calls = ["node.EndBlock"; "session.EndBlock"; "subscription.EndBlock"] /\
+  forall s, end_block s = (let! s1 := node_end_block s in let! s2 := session_end_block s1 in sub_end_block s2).
+Proof. exact (conj vpn_end_block_is_model model_end_block_order). Qed.
+Theorem C03_begin_block_order_is_the_apps : vpn_begin_block_calls = ["subscription.BeginBlock"] /\
+  runs_before "customminttypes.ModuleName" "minttypes.ModuleName" begin_blockers /\
+  forall s, begin_block s = (let! s1 := mint_begin_block s in sub_begin_block s1).
+Proof. exact (conj vpn_begin_block_is_model (conj custommint_before_mint model_begin_block_order)). Qed.
+End wiring.
+
 Print Assumptions C03_chain_never_halts.
 Print Assumptions C03_run_never_halts.
 Print Assumptions C03_step_never_halts.
@@ -131,3 +145,5 @@ Print Assumptions C03_subscription_expiry_never_panics.
 Print Assumptions C03_invariant_inductive.
 Print Assumptions C03_invariant_genesis.
 Print Assumptions C03_domain_boundary_witness.
+Print Assumptions C03_end_block_order_is_the_apps.
+Print Assumptions C03_begin_block_order_is_the_apps.
